@@ -1119,15 +1119,10 @@ where
     fn extend<T: IntoIterator<Item = (I, P)>>(&mut self, iter: T) {
         let iter = iter.into_iter();
         let (min, max) = iter.size_hint();
-        let rebuild = if let Some(max) = max {
-            self.reserve(max);
-            better_to_rebuild(self.len(), max)
-        } else if min != 0 {
-            self.reserve(min);
-            better_to_rebuild(self.len(), min)
-        } else {
-            false
-        };
+        // Only the lower bound is a promise: an upper bound may be far above
+        // what the iterator yields (up to `usize::MAX`), so it must not be reserved.
+        self.reserve(min);
+        let rebuild = better_to_rebuild(self.len(), max.unwrap_or(min));
         if rebuild {
             self.store.extend(iter);
             self.heap_build();
@@ -1207,7 +1202,8 @@ fn better_to_rebuild(len1: usize, len2: usize) -> bool {
         return false;
     }
 
-    2 * (len1 + len2) < len2 * log2_fast(len1)
+    // `len2` comes from a `size_hint` and can be as large as `usize::MAX`
+    len1.saturating_add(len2).saturating_mul(2) < len2.saturating_mul(log2_fast(len1))
 }
 
 #[cfg(feature = "serde")]
